@@ -40,6 +40,7 @@ def check(run: Run, prog: Program, model: Model, tier: str) -> None:
         "encoded line, read at application time. Any spelling of guards, helpers, loops or comprehensions yields the "
         "same paths. Clause 1 (all targets importable) is decided completely; the rewriter's behaviour on all programs "
         "(several imports, several aliases per import, exotic layouts) is not.")
+    run.explanation += " LINE-TABLE: the list indexed by ast line numbers is not built by str.splitlines() / split('\\n'). NOTHING-TO-DO: a None return before ast.parse is accepted for substring tests only."
     run.rule_text = ("one obligation per mapping entry (target resolves; name preserved) and per structural "
                      "clause of rewrite_imports; non-trivial = needed re-export chasing through >=1 package "
                      "__init__ or a def-use derivation inside rewrite_imports")
@@ -122,6 +123,7 @@ def check(run: Run, prog: Program, model: Model, tier: str) -> None:
 
     # ---------------------------------------------------------------- (4) SPAN
     _span(run, fn, records)
+    _nothing_to_do(run, fn, paths)
     # vacuity guard: if no path of the abstract evaluation records a replacement, every rule above is undecided
     run.floor("SCOPE-IMPORTFROM", 1)
 
@@ -150,6 +152,44 @@ def _evaluate(prog: Program, model: Model, fn: FuncInfo) -> Tuple[List[Any], Lis
                 break
     return paths, records
 
+
+
+def _nothing_to_do(run: Run, fn: FuncInfo, paths: List[Any]) -> None:
+    """NOTHING-TO-DO: "reports nothing to do" is a statement about the module's top-level imports, i.e. about the
+    parsed tree.  A path that returns None before the source has been parsed has decided it on the raw text: a plain
+    substring test for the v1 package names is implied by the absence of such imports (sound), a regular expression
+    (anchored at line starts, say) is not - `import os; from district42 import schema` has no line starting with
+    `from`."""
+    c = "rewrite_imports: `nothing to do` is decided on the parsed module"
+    early = []
+    for p in paths:
+        if p.outcome != "return" or not (isinstance(p.value, Const) and p.value.value is None):
+            continue
+        parsed = any(e.kind == "call" and isinstance(e.data.get("callee"), str) and e.data["callee"] in ("ast.parse", "builtins.compile")
+                     for e in p.events)
+        if not parsed:
+            early.append(p)
+    if not early:
+        run.holds("NOTHING-TO-DO", c, fn.loc, "every path that returns None has parsed the source", nontrivial=True)
+        return
+    regex = []
+    other = []
+    for p in early:
+        ks = [k for k, _, _ in p.facts]
+        if any(("re." in k or "Pattern" in k or "mcall(call(re.compile" in k or ", search," in k or ", match," in k) for k in ks):
+            regex.append(ks[-1] if ks else "")
+        elif ks and all(k.startswith("in(") or k.startswith("any(") or k.startswith("not") for k in ks):
+            continue        # substring tests only
+        else:
+            other.append(ks[-1] if ks else "unconditionally")
+    if regex:
+        run.violated("NOTHING-TO-DO", c, fn.loc, f"a path returns None before parsing, on a regular-expression test of the raw text ({regex[0][:70]}): "
+                     "imports that the pattern cannot see (not first on their physical line, CR line ends, continuation lines) are left on v1",
+                     witness='rewrite_imports("import os; from district42 import schema\n", mapping) returns None')
+    elif other:
+        run.undecided("NOTHING-TO-DO", c, fn.loc, f"a path returns None before parsing ({other[0][:70]})")
+    else:
+        run.holds("NOTHING-TO-DO", c, fn.loc, "early exits are substring tests for the v1 package names only", nontrivial=True)
 
 def _scope_toplevel(run: Run, fn: FuncInfo, records: List[Any]) -> None:
     c = "rewrite_imports: statement loop"
@@ -655,6 +695,10 @@ def _emissions(run: Run, mod: Module, fn: FuncInfo, records: List[Any]) -> bool:
 
 M = "d42/migration/migrate_v1_to_v2.py"
 MUTANTS = [
+    {"name": "regex over the raw text decides `nothing to do` (seeded C19-L)", "rule": "NOTHING-TO-DO",
+     "edits": [("d42/migration/migrate_v1_to_v2.py", "    tree = ast.parse(source_code)\n", "    if not re.search(r\"^from\\s+(?:district42|blahblah|revolt|valera)\\b\", source_code, re.MULTILINE):\n        return None\n    tree = ast.parse(source_code)\n")]},
+    {"name": "neutral: substring test for the v1 package names before parsing", "expect": "SILENT",
+     "edits": [("d42/migration/migrate_v1_to_v2.py", "    tree = ast.parse(source_code)\n", "    if not any(pkg in source_code for pkg in (\"district42\", \"blahblah\", \"revolt\", \"valera\")):\n        return None\n    tree = ast.parse(source_code)\n")]},
     {"name": "line table built with str.splitlines again (fix 8e3c08c reverted)", "rule": "LINE-TABLE",
      "edits": [("d42/migration/migrate_v1_to_v2.py", "    lines = re.findall(r\"[^\\r\\n]*(?:\\r\\n|\\r|\\n)|[^\\r\\n]+\", source_code)\n", "    lines = source_code.splitlines(keepends=True)\n")]},
     {"name": "line table built with split on \\n only", "rule": "LINE-TABLE",
